@@ -239,7 +239,40 @@ func mkSub(a, b *Term) *Term {
 func mkLe(a, b *Term) *Term { return mk("<=", SBool, a, b) }
 func mkLt(a, b *Term) *Term { return mk("<", SBool, a, b) }
 
+// cleanPats drops triggers that contain interpreted symbols (solvers reject them).
+func cleanPats(pats [][]*Term) [][]*Term {
+	var out [][]*Term
+	for _, p := range pats {
+		ok := true
+		for _, t := range p {
+			if hasInterp(t) {
+				ok = false
+			}
+		}
+		if ok {
+			out = append(out, p)
+		}
+	}
+	return out
+}
+
+func hasInterp(t *Term) bool {
+	switch t.Op {
+	case "+", "-", "*", "ite", "and", "or", "not", "=", "<", "<=", ">", ">=", "div", "mod", "=>", "forall", "exists", "distinct":
+		if len(t.Args) > 0 {
+			return true
+		}
+	}
+	for _, a := range t.Args {
+		if hasInterp(a) {
+			return true
+		}
+	}
+	return false
+}
+
 func mkForall(bs []Bound, body *Term, pats ...[]*Term) *Term {
+	pats = cleanPats(pats)
 	if len(bs) == 0 {
 		return body
 	}
@@ -249,6 +282,7 @@ func mkForall(bs []Bound, body *Term, pats ...[]*Term) *Term {
 	return &Term{Op: "forall", Bound: bs, Args: []*Term{body}, Sort: SBool, Pats: pats}
 }
 func mkExists(bs []Bound, body *Term, pats ...[]*Term) *Term {
+	pats = cleanPats(pats)
 	if len(bs) == 0 {
 		return body
 	}
